@@ -448,10 +448,20 @@ pub fn packed_patterns_with(rng: &mut Rng, force_min: Option<usize>, max_n: usiz
         _ => rng.range(2, 5),
     };
     let n = n.min(max_n).max(1);
+    // Mostly short minimum lengths (they select the Teddy fingerprint length),
+    // but also long ones: around 32/64/128 the Rabin-Karp rolling hash and
+    // the verification routines cross word-size boundaries.
     let minlen = match force_min {
         Some(m) => m,
-        None => *rng.pick(&[1usize, 2, 3, 4, 4, 5, 7]),
+        None => {
+            if rng.chance(1, 7) {
+                *rng.pick(&[31usize, 32, 33, 63, 64, 65, 66, 70, 100, 127, 128, 129, 130, 200])
+            } else {
+                *rng.pick(&[1usize, 2, 3, 4, 4, 5, 7, 8, 9, 16, 17])
+            }
+        }
     };
+    let n = if minlen > 20 { n.min(12) } else { n };
     let maxlen = minlen + rng.below(5);
     let alpha: Vec<u8> = match rng.below(4) {
         0 => b"ab".to_vec(),
